@@ -87,6 +87,29 @@ def _linalg_args(lem, rng):
     if name == 'lead_range':
         n = int(rng.integers(0, 6))
         return {'row': gens.bits(rng, n + 1), 'n': n}
+    if name in ('toks_range', 'toks_mono', 'toks_range_c', 'toks_mono_c'):
+        n = int(rng.integers(0, 7))
+        if name.endswith('_c'):
+            a = np.array([ord(ch) for ch in rng.choice(list('IXYZ+-iq'), size=n + 1)], dtype=np.int64)
+        else:
+            a = rng.integers(-1, 10, size=n + 1)
+        k = int(rng.integers(0, n + 1))
+        return {'a': a, 'k': k, 'j': int(rng.integers(0, max(k, 1)))}
+    if name in ('tokens_no_prefix', 'tokens_roundtrip'):
+        N = int(rng.integers(0, 5))
+        g = gens.bits(rng, 2 * N); p_ = int(rng.integers(0, 4))
+        t = np.array([{(0, 0): 0, (1, 0): 1, (1, 1): 2, (0, 1): 3}[(int(g[2 * i]), int(g[2 * i + 1]))] for i in range(N)] + [{0: 4, 1: 6, 2: 5, 3: 7}[p_]], dtype=np.int64)
+        if rng.integers(0, 6) == 0 and N > 0:
+            t[int(rng.integers(0, N))] = int(rng.integers(0, 8))          # sometimes not a token row of (g, p): requires filter it
+        return {'t': t, 'g': g, 'p': p_, 'N': N, 'k': int(rng.integers(0, N + 1))}
+    if name == 'chars_codes_agree':
+        n = int(rng.integers(0, 7))
+        sym = 'IXYZ+-'
+        c = rng.integers(0, 6, size=n)
+        s_ = np.array([ord(sym[int(x)]) for x in c], dtype=np.int64)
+        if rng.integers(0, 6) == 0 and n > 0:
+            c[int(rng.integers(0, n))] = int(rng.integers(0, 8))
+        return {'s': s_, 'c': c, 'k': int(rng.integers(0, n + 1))}
     if name in ('rank_swap', 'rank_rowadd', 'rank_echelon'):
         nr, nc = int(rng.integers(1, 5)), int(rng.integers(1, 5))
         A = gens.bits(rng, nr, nc)
